@@ -53,3 +53,22 @@ Example C06_example :
   let d := DSet "s" [Leaf "a" (Build_leafdev 2 [(0,1);(0,1)] [] KDev); Leaf "b" (Build_leafdev 2 [(0,1);(0,1)] [(0, 1, 0%nat, 2%nat)] KDev)] None in
   wf 2 d /\ tsmooth 2 d [0; 0; 0; 0] /\ List.length (tree_cons (A:=R) d) = 2%nat.
 Proof. cbn. repeat split; discriminate. Qed.
+
+(* ---- the constraint lists the source exports ARE these model lists, Jacobians included: Device / SDevice leaves, and every set /
+        adaptor node of a tree (Gen/Constraints.v regenerated from the `constraints` properties on every run; Proofs/GenConstraints.v).
+        A Jacobian lambda that leaves a loop variable free is translated with Python's late binding (the value of the last iteration),
+        so such a slip changes the generated list and this equality no longer holds. ---- *)
+From DK.Model Require Import ConOps.
+From DK.Gen Require Import Constraints.
+From DK.Proofs Require Import GenConstraints.
+Theorem C06_source_leaf_constraints_and_jacobians : forall (q : sparams R) n bnd cbs,
+  Device_constraints n cbs = cb_cons n cbs /\ SDevice_constraints (Device_constraints n cbs) q n bnd = cb_cons n cbs ++ sdev_cons q n bnd.
+Proof. intros q n bnd cbs. split; [apply gen_device_constraints|]. rewrite gen_sdevice_constraints, gen_device_constraints. reflexivity. Qed.
+Theorem C06_source_set_node_constraints_and_jacobians : forall {L} (ops : leafops R L) i ks sb, let d := DSet i ks sb in
+  DeviceSet_constraints (map (ckid_of ops) ks) (partition ops d) (rows ops d, dlen ops d) sb = gcons ops d.
+Proof. intros L ops i ks sb. apply gen_set_node_constraints. Qed.
+Theorem C06_source_adaptor_constraints_and_jacobians : forall {L} (ops : leafops R L) i l flows,
+  let d := MF i l flows in let k := List.length flows in let n := l_n L ops l in
+  MFDeviceSet_constraints (DeviceSet_constraints (repeat null_ckid k) (map (fun j => (j, 1%nat)) (seq 0 k)) (k, n) (Some (l_bounds L ops l)))
+    (l_cons L ops l) (k, n) = gcons ops d.
+Proof. intros L ops i l flows. apply gen_mf_node_constraints. Qed.
